@@ -31,6 +31,23 @@ theorem ref_sign_len (s m : Bytes) : (refCrypto.sign s m).length = 64 := by
 
 theorem ref_sign_byte (s m : Bytes) : ∀ b ∈ refCrypto.sign s m, b < 256 := ofB8_byte _
 
+/-- **no malleable signatures**: the reference verification (as OpenSSL's) refuses every signature whose scalar half is not reduced below the group
+order `L` — adding `L` to the scalar of a valid signature, the classic way to make a second valid-looking signature, gives a rejected one -/
+theorem ref_verify_rejects_unreduced_scalar (pub msg sig : B8) (h : L ≤ leNat (sig.drop 32)) : verify pub msg sig = false := by
+  unfold verify
+  split
+  · rfl
+  · simp [h]
+
+/-- verification accepts only 32-byte keys and 64-byte signatures -/
+theorem ref_verify_lengths (pub msg sig : B8) (h : verify pub msg sig = true) : pub.length = 32 ∧ sig.length = 64 := by
+  unfold verify at h
+  split at h
+  · cases h
+  · rename_i hl
+    simp only [bne_iff_ne, ne_eq, Bool.or_eq_true, decide_eq_true_eq, not_or, Decidable.not_not] at hl
+    exact hl
+
 /-- the reference implementation is a `Crypto` as soon as its correctness law is granted (the only law not proved here) -/
 def refCryptoOf (hc : ∀ s m, s.length = 32 → refCrypto.verify (refCrypto.pubOf s) m (refCrypto.sign s m) = true) : Crypto :=
   { refCrypto with
